@@ -34,9 +34,11 @@ theorem C06_connecting_inert (s : Srv) (k : Nat) (c : Conn) (r : Req) (env : Env
     split
     · exact Or.inr ⟨_, rfl, fail_preauth s k c _ env hc hp' rfl⟩
     · next hv =>
-      have : v = 1 := by simpa using hv
-      subst this
-      exact Or.inl ⟨hb, rfl, rfl, _, rfl⟩
+      split
+      · exact Or.inr ⟨_, rfl, fail_preauth s k c _ env hc hp' rfl⟩
+      · have : v = 1 := by simpa using hv
+        subst this
+        exact Or.inl ⟨hb, rfl, rfl, _, rfl⟩
   · exact Or.inr ⟨_, rfl, fail_preauth s k c _ env hc hp' rfl⟩
 
 theorem withoutConn_frames (s : Srv) (k : Nat) :
@@ -70,12 +72,16 @@ theorem C06_handshake_no_channel_effect (s : Srv) (k : Nat) (c : Conn) (r : Req)
   · unfold connectingStep; split
     · split
       · exact (hf _ rfl).1
-      · rfl
+      · split
+        · exact (hf _ rfl).1
+        · rfl
     · exact (hf _ rfl).1
   · unfold connectingStep; split
     · split
       · exact (hf _ rfl).2
-      · rfl
+      · split
+        · exact (hf _ rfl).2
+        · rfl
     · exact (hf _ rfl).2
   · unfold connectedStep; split
     · split
@@ -88,12 +94,14 @@ theorem C06_handshake_no_channel_effect (s : Srv) (k : Nat) (c : Conn) (r : Req)
     · split
       · exact (hf _ rfl).1
       · split
-        · split
-          · exact (hf _ rfl).1
-          · rfl
-        · rfl
-        · rfl
         · exact (hf _ rfl).1
+        · split
+          · split
+            · exact (hf _ rfl).1
+            · rfl
+          · rfl
+          · rfl
+          · exact (hf _ rfl).1
     · exact (hf _ rfl).1
   · unfold connectedStep; split
     · split
@@ -106,12 +114,14 @@ theorem C06_handshake_no_channel_effect (s : Srv) (k : Nat) (c : Conn) (r : Req)
     · split
       · exact (hf _ rfl).2
       · split
-        · split
-          · exact (hf _ rfl).2
-          · rfl
-        · rfl
-        · rfl
         · exact (hf _ rfl).2
+        · split
+          · split
+            · exact (hf _ rfl).2
+            · rfl
+          · rfl
+          · rfl
+          · exact (hf _ rfl).2
     · exact (hf _ rfl).2
 
 /-- **C06, authenticated is terminal**: CONNECT, IDENTIFY and AUTH are refused (UNEXPECTED_MESSAGE, close)
@@ -173,7 +183,8 @@ theorem C09_auth_only_on_success (s : Srv) (k : Nat) (c : Conn) (r : Req) (env :
     (hauth : s.cfg.authRequired = true) (hc : findConn s.conns k = some c) (hp : c.phase = .connected)
     (hres : phaseOf (connectedStep s k r env).1 k = some (.authed u)) :
     (∃ t, r = .auth t) ∧ env.auth = .success u ∧ u ≠ [] ∧
-      (connectedStep s k r env).2 = [{ conn := k, frame := .authAck none (some true) (some (fullNid s u)) }] := by
+      (connectedStep s k r env).2 = [{ conn := k, frame := .authAck none (some true) (some (fullNid s u)) }] ∧
+      env.down = false := by
   have hp' : ∀ u, c.phase ≠ .authed u := by intro u h; rw [hp] at h; cases h
   have hfail : ∀ reason, reason.recoverable = false → phaseOf (fail s k none reason env).1 k = some (.authed u) → False := by
     intro reason hr h
@@ -187,21 +198,26 @@ theorem C09_auth_only_on_success (s : Srv) (k : Nat) (c : Conn) (r : Req) (env :
   · next t =>
     simp only [hauth, Bool.not_true, Bool.false_eq_true, if_false] at hres ⊢
     split at hres
-    · next u' hs =>
-      simp only [hs]
-      split at hres
-      · exact absurd hres (fun h => hfail _ rfl h)
-      · next hv =>
-        simp only [hv, if_false]
-        unfold register at hres
-        have := phaseOf_setPhase { s with router := setA s.router u' (connsOf s u' ++ [k]) } k (.authed u') c hc
-        rw [this] at hres
-        cases hres
-        refine ⟨⟨t, rfl⟩, rfl, ?_, rfl⟩
-        intro h0; simp [h0] at hv
-    · exact absurd hres hsame
-    · exact absurd hres hsame
     · exact absurd hres (fun h => hfail _ rfl h)
+    · next hdn =>
+      have hdn' : env.down = false := by simpa using hdn
+      simp only [hdn', Bool.false_eq_true, if_false]
+      split at hres
+      · next u' hs =>
+        simp only [hs]
+        split at hres
+        · exact absurd hres (fun h => hfail _ rfl h)
+        · next hv =>
+          simp only [hv, if_false]
+          unfold register at hres
+          have := phaseOf_setPhase { s with router := setA s.router u' (connsOf s u' ++ [k]) } k (.authed u') c hc
+          rw [this] at hres
+          cases hres
+          refine ⟨⟨t, rfl⟩, rfl, ?_, rfl, trivial⟩
+          intro h0; simp [h0] at hv
+      · exact absurd hres hsame
+      · exact absurd hres hsame
+      · exact absurd hres (fun h => hfail _ rfl h)
   · exact absurd hres (fun h => hfail _ rfl h)
 
 /-- **C09.** IDENTIFY is refused when the modulator authenticates -/
